@@ -132,6 +132,7 @@ const bytes& model_signature(const model::Key& k, const bytes& msg, model::Trace
 
 // forced challenge (S10): installs the override for the duration of a call
 struct ForcedChallenge {
+  bool active;
   explicit ForcedChallenge(const model::Challenge* ch);
   ~ForcedChallenge();
 };
